@@ -12,6 +12,15 @@ CLAIMS = {
  'C02': dict(technique="runtime monitoring: emitted VHDL executed by an instrumented interpreter (vsim) for all operand valuations, compared online with an independent value model (MV)",
              text="Exploration: every documented operator x operand-type pair (small widths exhaustively over all values, both concurrent and clocked placement) plus random depth-2/3 trees; the oracle observes every output after every valuation.",
              ref="2 C02"),
+ 'C01': dict(technique="runtime monitoring: emitted state machine executed by vsim against the same coroutine run by CPython with explicit clock yields; per-clock comparison of all ports over a joint-state exploration",
+             text="Exploration: seeded coroutine programs (await/while/break/continue/return/sub-coroutines, marker statements), every input valuation in every reached joint state up to a budget plus random runs.",
+             ref="2 C01"),
+ 'C03': dict(technique="runtime monitoring: emitted process executed by vsim against the same statements executed by CPython over reference signal/variable classes; per-clock comparison",
+             text="Exploration: seeded sequential/concurrent bodies (signals, variables, pushes, slices, run-time indexed arrays, helper returns, if/match/for-break), joint-state exploration plus random runs.",
+             ref="2 C03"),
+ 'C04': dict(technique="runtime monitoring: reset asserted in every explored state of generated designs under vsim, compared per clock (and between edges for async resets) with the property's reset rule applied to the CPython-executed reference",
+             text="Exploration: generated plain and coroutine contexts x sync/async x both polarities x noreset/no-default objects x step_cond x on_reset routes; reset is an input bit of the joint-state exploration.",
+             ref="2 C04"),
  'C09': dict(technique="runtime monitoring: three-way differential between Python-level folding, simulated run-time logic and simulated folded literals",
              text="Exploration: all operators x type pairs x all values for small widths; disagreement in type, width or value between compile-time objects and executed emitted logic is a violation.",
              ref="2 C09"),
